@@ -12,6 +12,12 @@ def check(ctx):
         ctx.verus_unit(chardata.make_unit(ctx.scratch.dir), finder=None)
     except Lost as e:
         ctx.undecided.append('chardata reason=lost anchor: %s' % e)
+    # Verus: radix / literal dispatch of parse_integer::<T>, parse_float, parse_bool for texts of every length (conversions are leaves)
+    from contracts import numtext
+    try:
+        ctx.verus_unit(numtext.make_unit(ctx.scratch.dir), finder=None)
+    except Lost as e:
+        ctx.undecided.append('numtext reason=lost anchor: %s' % e)
     specs = []
     for t in TYPES:
         lens = [1, 2, 3] + ([4] if thorough else []) + ([5] if thorough and t in ('u8', 'i8') else [])
@@ -96,7 +102,7 @@ def check(ctx):
     ctx.native_enum('parse-float-prefixed', dict(module='chardata', check='float_prefixed', alphabet=b'0127fxXbB.', maxlen=6), 'parse_float on prefixed forms')
     ctx.native_enum('parse-bool', dict(module='chardata', check='bool', alphabet=b'truefals01TF ', maxlen=5), 'parse_bool against the boolean lexical form')
     return ctx.finish(
-        explanation='Verus (real text, all values/specs/versions): check_value == valid(value, spec, version); parse(text) == Some(d) ==> valid(d), accepted String/Pattern text is kept verbatim, and parse succeeds whenever the spec admits the text (String/Pattern/Enum). Complete (loop-free, full-domain) Kani obligations: numeric interpretation of UnsignedInteger/Float/Enum data for all u64 / all f64 bit patterns and all 8 integer widths; check_value over kind x spec. Bounded: parse_integer/parse_float/parse_bool on texts, one Kani harness per concrete length against a digit-accumulation spec guarded by the reference DFA of the published lexical form, plus native sweeps of the same executable contracts over longer texts. Not covered: decimal/exponent/INF/NaN float text (std dec2flt, assumed), Display/serialize of numbers (std to_string), string escaping (escape_text), the Enum branch of parse (C18), overflow boundaries of 64-bit types in text form (std from_str_radix, assumed).',
+        explanation='Verus (real text): parse_integer::<T> / parse_float / parse_bool hand exactly the digits after the prefix to the conversion of the radix the prefix announces (0x/0X 16, 0b/0B 2, leading 0 octal, else decimal; "0" is zero; true/1, false/0), for texts of every length and every integer type -- the conversions themselves (std from_str_radix, str::parse, as f64) are leaves. Verus (all values/specs/versions): check_value == valid(value, spec, version); parse(text) == Some(d) ==> valid(d), accepted String/Pattern text is kept verbatim, and parse succeeds whenever the spec admits the text (String/Pattern/Enum). Complete (loop-free, full-domain) Kani obligations: numeric interpretation of UnsignedInteger/Float/Enum data for all u64 / all f64 bit patterns and all 8 integer widths; check_value over kind x spec. Bounded: parse_integer/parse_float/parse_bool on texts, one Kani harness per concrete length against a digit-accumulation spec guarded by the reference DFA of the published lexical form, plus native sweeps of the same executable contracts over longer texts. Not covered: decimal/exponent/INF/NaN float text (std dec2flt, assumed), Display/serialize of numbers (std to_string), string escaping (escape_text), the Enum branch of parse (C18), overflow boundaries of 64-bit types in text form (std from_str_radix, assumed).',
         checker_cmd='verus generated/chardata.rs; cargo kani --harness int_*_len* --harness uint_as_* --harness nonstring_interpretations --harness bool_len* --harness float_pref_len* --harness check_value_all; vxnative find chardata <check> ...',
         trusted_base=['Verus 0.2026.09.13 + Z3', 'Kani 0.68 + CBMC 6.11', 'leaves of the chardata unit (uninterpreted): pattern validator call, EnumItem::from_str, str::parse::<u64/f64>, string bytes', 'std: from_str_radix, str::parse::<u64/f64>, to_string, u64 as f64 (IEEE round-to-nearest)', 'regexspec DFA of the INTEGER/NUMERICAL/BOOLEAN patterns as the precondition of the text harnesses',
                       'harness strings are built with from_utf8_unchecked from bytes assumed ASCII'])
